@@ -112,7 +112,7 @@ func jobsFor(id, tier string) []*Job {
 			ip = append(ip, []int{sh, 8, 2, 2})
 		}
 		ij := wmk("indexers", "zzverifw.H_C01_builtin", ip)
-		ij.TimeoutS = 150
+		ij.TimeoutS = 240
 		ij.SolverMs = 2000
 		ij.MaxSteps = 1000000
 		add(split(ij)...)
@@ -504,7 +504,7 @@ func boundsFor(id, tier string, jobs []*Job) map[string]interface{} {
 		}
 		b["repl"] = "sessions of three lines through the real StartREPL: first line any line of the generated pool (every string literal of /repo/runscript - the REPL's commands and prompts - as written, upper / lower / capitalised, with leading / trailing blanks, truncated, doubled, with a trailing ;) or a program; second line a command, a miscased command, a program, an unfinished program or empty; third line 1 + 1 or a program reading standard input after it is exhausted (<>.S, <>.p, interpolation, <>.uc, iteration)"
 		b["two_arguments_boundary"] = "EVERY built-in with two arguments drawn from a reduced boundary set of 16 shapes (nil, empty and small str / arr / obj / map, range, function, 0, -1, 7, the smallest int64, 0.0, NaN, true): all 256 combinations per built-in, not time-boxed"
-		b["indexers"] = "every built-in named at (what recv[index] calls) with receiver any shape and index any shape, incl. [i] with i any int64 and [(a:b:c)] / (a:b:c) with each bound nil or any int64"
+		b["indexers"] = "every built-in named at (what recv[index] calls) with receiver any shape and index any shape, incl. [i] with i any int64 and [(a:b:c)] / (a:b:c) with a, b nil or any int64 and c nil, 1, -1, 2, -3 or any int64"
 		b["argument_shapes"] = "symbolic int, symbolic float, nil, bool, strs, arrays, objects, maps, ranges, function, iterator, Either values, error value, prototypes, bear children, symbol, char (solver choice per position)"
 		b["second_step"] = "for arity 0..1 every non-error result is then printed, compared, unpacked with * and ** into calls and literals, iterated and interpolated (14 consumers)"
 		b["singletons"] = "every name of the constants environment x 15 generic probes (printing, lookup, comparison, bear, which, try)"
